@@ -140,6 +140,7 @@ int main(int argc, char **argv) {
         }
     };
     double t0 = vr::now_s();
+    A.has("out"); A.require_all_used();
     auto res = R.run(total_units, work, describe);
     double wall = vr::now_s() - t0;
 
